@@ -24,9 +24,12 @@ mod kani_c20 {
     }
     /// one address of each compression class, with 16 symbolic bits: link-local derived from the link-layer address,
     /// link-local with a 16-bit interface id (fe80::ff:fe00:XXXX), arbitrary link-local, multicast ff02::00XX / ffXX::.., global, unspecified
-    fn any_addr(ll: &Ieee802154Address) -> Ipv6Address {
+    fn any_addr(ll: &Ieee802154Address) -> Ipv6Address { addr_of(kani::any::<u8>() % 7, ll) }
+    /// `class` is a literal at every call site of the per-class harnesses, so that symbolic execution only walks one arm
+    #[inline(always)]
+    fn addr_of(class: u8, ll: &Ieee802154Address) -> Ipv6Address {
         let x: u16 = kani::any();
-        match kani::any::<u8>() % 7 {
+        match class {
             0 => match ll.as_link_local_address() { Some(a) => a, None => Ipv6Address::UNSPECIFIED },
             1 => Ipv6Address::new(0xfe80, 0, 0, 0, 0, 0x00ff, 0xfe00, x),
             2 => Ipv6Address::new(0xfe80, 0, 0, 0, 0x1234, x, 0x5678, 0x9abc),
@@ -58,9 +61,12 @@ mod kani_c20 {
     /// UDP, every port class (uncompressed / 8-bit / 4-bit compressible), every address class
     #[cfg(any(feature = "socket-udp", feature = "socket-dns"))]
     #[kani::proof] #[kani::unwind(20)]
-    fn c20_roundtrip_udp() {
+    fn c20_roundtrip_udp() { udp_case(kani::any::<u8>() % 7, kani::any::<u8>() % 7) }
+    #[cfg(any(feature = "socket-udp", feature = "socket-dns"))]
+    #[inline(always)]
+    fn udp_case(sc: u8, dc: u8) {
         let (ll_src, ll_dst) = (any_ll(), any_ll());
-        let (src, dst) = (any_addr(&ll_src), any_addr(&ll_dst));
+        let (src, dst) = (addr_of(sc, &ll_src), addr_of(dc, &ll_dst));
         let pay: [u8; P] = kani::any();
         let n: usize = kani::any();
         kani::assume(n <= P); // tag: range
@@ -102,9 +108,11 @@ mod kani_c20 {
 
     /// ICMPv6 echo (uncompressed next header)
     #[kani::proof] #[kani::unwind(20)]
-    fn c20_roundtrip_icmpv6() {
+    fn c20_roundtrip_icmpv6() { icmp_case(kani::any::<u8>() % 7, kani::any::<u8>() % 7) }
+    #[inline(always)]
+    fn icmp_case(sc: u8, dc: u8) {
         let (ll_src, ll_dst) = (any_ll(), any_ll());
-        let (src, dst) = (any_addr(&ll_src), any_addr(&ll_dst));
+        let (src, dst) = (addr_of(sc, &ll_src), addr_of(dc, &ll_dst));
         let pay: [u8; P] = kani::any();
         let n: usize = kani::any();
         kani::assume(n <= P); // tag: range
@@ -120,4 +128,154 @@ mod kani_c20 {
             payload: IpPayload::Icmpv6(icmp) };
         roundtrip(packet, ll_src, ll_dst, &plain[..40 + 8 + n]);
     }
+
+    // one harness per (source address class, destination address class): 0 = derived from the link-layer address, 1 = fe80::ff:fe00:XXXX,
+    // 2 = other link-local, 3 = ff02::00XX, 4 = other multicast, 5 = global, 6 = unspecified
+    #[cfg(any(feature = "socket-udp", feature = "socket-dns"))]
+    #[kani::proof] #[kani::unwind(20)] fn c20_udp_s0_d0() { udp_case(0, 0) }
+    #[kani::proof] #[kani::unwind(20)] fn c20_icmp_s0_d0() { icmp_case(0, 0) }
+    #[cfg(any(feature = "socket-udp", feature = "socket-dns"))]
+    #[kani::proof] #[kani::unwind(20)] fn c20_udp_s0_d1() { udp_case(0, 1) }
+    #[kani::proof] #[kani::unwind(20)] fn c20_icmp_s0_d1() { icmp_case(0, 1) }
+    #[cfg(any(feature = "socket-udp", feature = "socket-dns"))]
+    #[kani::proof] #[kani::unwind(20)] fn c20_udp_s0_d2() { udp_case(0, 2) }
+    #[kani::proof] #[kani::unwind(20)] fn c20_icmp_s0_d2() { icmp_case(0, 2) }
+    #[cfg(any(feature = "socket-udp", feature = "socket-dns"))]
+    #[kani::proof] #[kani::unwind(20)] fn c20_udp_s0_d3() { udp_case(0, 3) }
+    #[kani::proof] #[kani::unwind(20)] fn c20_icmp_s0_d3() { icmp_case(0, 3) }
+    #[cfg(any(feature = "socket-udp", feature = "socket-dns"))]
+    #[kani::proof] #[kani::unwind(20)] fn c20_udp_s0_d4() { udp_case(0, 4) }
+    #[kani::proof] #[kani::unwind(20)] fn c20_icmp_s0_d4() { icmp_case(0, 4) }
+    #[cfg(any(feature = "socket-udp", feature = "socket-dns"))]
+    #[kani::proof] #[kani::unwind(20)] fn c20_udp_s0_d5() { udp_case(0, 5) }
+    #[kani::proof] #[kani::unwind(20)] fn c20_icmp_s0_d5() { icmp_case(0, 5) }
+    #[cfg(any(feature = "socket-udp", feature = "socket-dns"))]
+    #[kani::proof] #[kani::unwind(20)] fn c20_udp_s0_d6() { udp_case(0, 6) }
+    #[kani::proof] #[kani::unwind(20)] fn c20_icmp_s0_d6() { icmp_case(0, 6) }
+    #[cfg(any(feature = "socket-udp", feature = "socket-dns"))]
+    #[kani::proof] #[kani::unwind(20)] fn c20_udp_s1_d0() { udp_case(1, 0) }
+    #[kani::proof] #[kani::unwind(20)] fn c20_icmp_s1_d0() { icmp_case(1, 0) }
+    #[cfg(any(feature = "socket-udp", feature = "socket-dns"))]
+    #[kani::proof] #[kani::unwind(20)] fn c20_udp_s1_d1() { udp_case(1, 1) }
+    #[kani::proof] #[kani::unwind(20)] fn c20_icmp_s1_d1() { icmp_case(1, 1) }
+    #[cfg(any(feature = "socket-udp", feature = "socket-dns"))]
+    #[kani::proof] #[kani::unwind(20)] fn c20_udp_s1_d2() { udp_case(1, 2) }
+    #[kani::proof] #[kani::unwind(20)] fn c20_icmp_s1_d2() { icmp_case(1, 2) }
+    #[cfg(any(feature = "socket-udp", feature = "socket-dns"))]
+    #[kani::proof] #[kani::unwind(20)] fn c20_udp_s1_d3() { udp_case(1, 3) }
+    #[kani::proof] #[kani::unwind(20)] fn c20_icmp_s1_d3() { icmp_case(1, 3) }
+    #[cfg(any(feature = "socket-udp", feature = "socket-dns"))]
+    #[kani::proof] #[kani::unwind(20)] fn c20_udp_s1_d4() { udp_case(1, 4) }
+    #[kani::proof] #[kani::unwind(20)] fn c20_icmp_s1_d4() { icmp_case(1, 4) }
+    #[cfg(any(feature = "socket-udp", feature = "socket-dns"))]
+    #[kani::proof] #[kani::unwind(20)] fn c20_udp_s1_d5() { udp_case(1, 5) }
+    #[kani::proof] #[kani::unwind(20)] fn c20_icmp_s1_d5() { icmp_case(1, 5) }
+    #[cfg(any(feature = "socket-udp", feature = "socket-dns"))]
+    #[kani::proof] #[kani::unwind(20)] fn c20_udp_s1_d6() { udp_case(1, 6) }
+    #[kani::proof] #[kani::unwind(20)] fn c20_icmp_s1_d6() { icmp_case(1, 6) }
+    #[cfg(any(feature = "socket-udp", feature = "socket-dns"))]
+    #[kani::proof] #[kani::unwind(20)] fn c20_udp_s2_d0() { udp_case(2, 0) }
+    #[kani::proof] #[kani::unwind(20)] fn c20_icmp_s2_d0() { icmp_case(2, 0) }
+    #[cfg(any(feature = "socket-udp", feature = "socket-dns"))]
+    #[kani::proof] #[kani::unwind(20)] fn c20_udp_s2_d1() { udp_case(2, 1) }
+    #[kani::proof] #[kani::unwind(20)] fn c20_icmp_s2_d1() { icmp_case(2, 1) }
+    #[cfg(any(feature = "socket-udp", feature = "socket-dns"))]
+    #[kani::proof] #[kani::unwind(20)] fn c20_udp_s2_d2() { udp_case(2, 2) }
+    #[kani::proof] #[kani::unwind(20)] fn c20_icmp_s2_d2() { icmp_case(2, 2) }
+    #[cfg(any(feature = "socket-udp", feature = "socket-dns"))]
+    #[kani::proof] #[kani::unwind(20)] fn c20_udp_s2_d3() { udp_case(2, 3) }
+    #[kani::proof] #[kani::unwind(20)] fn c20_icmp_s2_d3() { icmp_case(2, 3) }
+    #[cfg(any(feature = "socket-udp", feature = "socket-dns"))]
+    #[kani::proof] #[kani::unwind(20)] fn c20_udp_s2_d4() { udp_case(2, 4) }
+    #[kani::proof] #[kani::unwind(20)] fn c20_icmp_s2_d4() { icmp_case(2, 4) }
+    #[cfg(any(feature = "socket-udp", feature = "socket-dns"))]
+    #[kani::proof] #[kani::unwind(20)] fn c20_udp_s2_d5() { udp_case(2, 5) }
+    #[kani::proof] #[kani::unwind(20)] fn c20_icmp_s2_d5() { icmp_case(2, 5) }
+    #[cfg(any(feature = "socket-udp", feature = "socket-dns"))]
+    #[kani::proof] #[kani::unwind(20)] fn c20_udp_s2_d6() { udp_case(2, 6) }
+    #[kani::proof] #[kani::unwind(20)] fn c20_icmp_s2_d6() { icmp_case(2, 6) }
+    #[cfg(any(feature = "socket-udp", feature = "socket-dns"))]
+    #[kani::proof] #[kani::unwind(20)] fn c20_udp_s3_d0() { udp_case(3, 0) }
+    #[kani::proof] #[kani::unwind(20)] fn c20_icmp_s3_d0() { icmp_case(3, 0) }
+    #[cfg(any(feature = "socket-udp", feature = "socket-dns"))]
+    #[kani::proof] #[kani::unwind(20)] fn c20_udp_s3_d1() { udp_case(3, 1) }
+    #[kani::proof] #[kani::unwind(20)] fn c20_icmp_s3_d1() { icmp_case(3, 1) }
+    #[cfg(any(feature = "socket-udp", feature = "socket-dns"))]
+    #[kani::proof] #[kani::unwind(20)] fn c20_udp_s3_d2() { udp_case(3, 2) }
+    #[kani::proof] #[kani::unwind(20)] fn c20_icmp_s3_d2() { icmp_case(3, 2) }
+    #[cfg(any(feature = "socket-udp", feature = "socket-dns"))]
+    #[kani::proof] #[kani::unwind(20)] fn c20_udp_s3_d3() { udp_case(3, 3) }
+    #[kani::proof] #[kani::unwind(20)] fn c20_icmp_s3_d3() { icmp_case(3, 3) }
+    #[cfg(any(feature = "socket-udp", feature = "socket-dns"))]
+    #[kani::proof] #[kani::unwind(20)] fn c20_udp_s3_d4() { udp_case(3, 4) }
+    #[kani::proof] #[kani::unwind(20)] fn c20_icmp_s3_d4() { icmp_case(3, 4) }
+    #[cfg(any(feature = "socket-udp", feature = "socket-dns"))]
+    #[kani::proof] #[kani::unwind(20)] fn c20_udp_s3_d5() { udp_case(3, 5) }
+    #[kani::proof] #[kani::unwind(20)] fn c20_icmp_s3_d5() { icmp_case(3, 5) }
+    #[cfg(any(feature = "socket-udp", feature = "socket-dns"))]
+    #[kani::proof] #[kani::unwind(20)] fn c20_udp_s3_d6() { udp_case(3, 6) }
+    #[kani::proof] #[kani::unwind(20)] fn c20_icmp_s3_d6() { icmp_case(3, 6) }
+    #[cfg(any(feature = "socket-udp", feature = "socket-dns"))]
+    #[kani::proof] #[kani::unwind(20)] fn c20_udp_s4_d0() { udp_case(4, 0) }
+    #[kani::proof] #[kani::unwind(20)] fn c20_icmp_s4_d0() { icmp_case(4, 0) }
+    #[cfg(any(feature = "socket-udp", feature = "socket-dns"))]
+    #[kani::proof] #[kani::unwind(20)] fn c20_udp_s4_d1() { udp_case(4, 1) }
+    #[kani::proof] #[kani::unwind(20)] fn c20_icmp_s4_d1() { icmp_case(4, 1) }
+    #[cfg(any(feature = "socket-udp", feature = "socket-dns"))]
+    #[kani::proof] #[kani::unwind(20)] fn c20_udp_s4_d2() { udp_case(4, 2) }
+    #[kani::proof] #[kani::unwind(20)] fn c20_icmp_s4_d2() { icmp_case(4, 2) }
+    #[cfg(any(feature = "socket-udp", feature = "socket-dns"))]
+    #[kani::proof] #[kani::unwind(20)] fn c20_udp_s4_d3() { udp_case(4, 3) }
+    #[kani::proof] #[kani::unwind(20)] fn c20_icmp_s4_d3() { icmp_case(4, 3) }
+    #[cfg(any(feature = "socket-udp", feature = "socket-dns"))]
+    #[kani::proof] #[kani::unwind(20)] fn c20_udp_s4_d4() { udp_case(4, 4) }
+    #[kani::proof] #[kani::unwind(20)] fn c20_icmp_s4_d4() { icmp_case(4, 4) }
+    #[cfg(any(feature = "socket-udp", feature = "socket-dns"))]
+    #[kani::proof] #[kani::unwind(20)] fn c20_udp_s4_d5() { udp_case(4, 5) }
+    #[kani::proof] #[kani::unwind(20)] fn c20_icmp_s4_d5() { icmp_case(4, 5) }
+    #[cfg(any(feature = "socket-udp", feature = "socket-dns"))]
+    #[kani::proof] #[kani::unwind(20)] fn c20_udp_s4_d6() { udp_case(4, 6) }
+    #[kani::proof] #[kani::unwind(20)] fn c20_icmp_s4_d6() { icmp_case(4, 6) }
+    #[cfg(any(feature = "socket-udp", feature = "socket-dns"))]
+    #[kani::proof] #[kani::unwind(20)] fn c20_udp_s5_d0() { udp_case(5, 0) }
+    #[kani::proof] #[kani::unwind(20)] fn c20_icmp_s5_d0() { icmp_case(5, 0) }
+    #[cfg(any(feature = "socket-udp", feature = "socket-dns"))]
+    #[kani::proof] #[kani::unwind(20)] fn c20_udp_s5_d1() { udp_case(5, 1) }
+    #[kani::proof] #[kani::unwind(20)] fn c20_icmp_s5_d1() { icmp_case(5, 1) }
+    #[cfg(any(feature = "socket-udp", feature = "socket-dns"))]
+    #[kani::proof] #[kani::unwind(20)] fn c20_udp_s5_d2() { udp_case(5, 2) }
+    #[kani::proof] #[kani::unwind(20)] fn c20_icmp_s5_d2() { icmp_case(5, 2) }
+    #[cfg(any(feature = "socket-udp", feature = "socket-dns"))]
+    #[kani::proof] #[kani::unwind(20)] fn c20_udp_s5_d3() { udp_case(5, 3) }
+    #[kani::proof] #[kani::unwind(20)] fn c20_icmp_s5_d3() { icmp_case(5, 3) }
+    #[cfg(any(feature = "socket-udp", feature = "socket-dns"))]
+    #[kani::proof] #[kani::unwind(20)] fn c20_udp_s5_d4() { udp_case(5, 4) }
+    #[kani::proof] #[kani::unwind(20)] fn c20_icmp_s5_d4() { icmp_case(5, 4) }
+    #[cfg(any(feature = "socket-udp", feature = "socket-dns"))]
+    #[kani::proof] #[kani::unwind(20)] fn c20_udp_s5_d5() { udp_case(5, 5) }
+    #[kani::proof] #[kani::unwind(20)] fn c20_icmp_s5_d5() { icmp_case(5, 5) }
+    #[cfg(any(feature = "socket-udp", feature = "socket-dns"))]
+    #[kani::proof] #[kani::unwind(20)] fn c20_udp_s5_d6() { udp_case(5, 6) }
+    #[kani::proof] #[kani::unwind(20)] fn c20_icmp_s5_d6() { icmp_case(5, 6) }
+    #[cfg(any(feature = "socket-udp", feature = "socket-dns"))]
+    #[kani::proof] #[kani::unwind(20)] fn c20_udp_s6_d0() { udp_case(6, 0) }
+    #[kani::proof] #[kani::unwind(20)] fn c20_icmp_s6_d0() { icmp_case(6, 0) }
+    #[cfg(any(feature = "socket-udp", feature = "socket-dns"))]
+    #[kani::proof] #[kani::unwind(20)] fn c20_udp_s6_d1() { udp_case(6, 1) }
+    #[kani::proof] #[kani::unwind(20)] fn c20_icmp_s6_d1() { icmp_case(6, 1) }
+    #[cfg(any(feature = "socket-udp", feature = "socket-dns"))]
+    #[kani::proof] #[kani::unwind(20)] fn c20_udp_s6_d2() { udp_case(6, 2) }
+    #[kani::proof] #[kani::unwind(20)] fn c20_icmp_s6_d2() { icmp_case(6, 2) }
+    #[cfg(any(feature = "socket-udp", feature = "socket-dns"))]
+    #[kani::proof] #[kani::unwind(20)] fn c20_udp_s6_d3() { udp_case(6, 3) }
+    #[kani::proof] #[kani::unwind(20)] fn c20_icmp_s6_d3() { icmp_case(6, 3) }
+    #[cfg(any(feature = "socket-udp", feature = "socket-dns"))]
+    #[kani::proof] #[kani::unwind(20)] fn c20_udp_s6_d4() { udp_case(6, 4) }
+    #[kani::proof] #[kani::unwind(20)] fn c20_icmp_s6_d4() { icmp_case(6, 4) }
+    #[cfg(any(feature = "socket-udp", feature = "socket-dns"))]
+    #[kani::proof] #[kani::unwind(20)] fn c20_udp_s6_d5() { udp_case(6, 5) }
+    #[kani::proof] #[kani::unwind(20)] fn c20_icmp_s6_d5() { icmp_case(6, 5) }
+    #[cfg(any(feature = "socket-udp", feature = "socket-dns"))]
+    #[kani::proof] #[kani::unwind(20)] fn c20_udp_s6_d6() { udp_case(6, 6) }
+    #[kani::proof] #[kani::unwind(20)] fn c20_icmp_s6_d6() { icmp_case(6, 6) }
 }
